@@ -55,8 +55,10 @@ func modeSec(c *Ctx) {
 	schemes := c.Doc.Schemes()
 	keys := sortedKeys(schemes)
 	type obs struct {
-		ran  bool
-		tags []string
+		ran       bool
+		tags      []string
+		accepted  map[string]bool // scheme keys whose authenticator accepted during this request
+		consulted int
 	}
 	var cur *obs
 	api := c.NewAPI(func(op *Op) func(ctx context.Context, req reflect.Value) reflect.Value {
@@ -98,8 +100,17 @@ func modeSec(c *Ctx) {
 			fv.Set(reflect.MakeFunc(fv.Type(), func(args []reflect.Value) []reflect.Value {
 				r := args[0].Interface().(*http.Request)
 				tok := args[1].String()
+				if cur != nil {
+					cur.consulted++
+				}
 				for _, k2 := range keys {
 					if fieldOf[k2] == f && k2 != nilScheme && tok == "good-"+k2 {
+						if cur != nil {
+							if cur.accepted == nil {
+								cur.accepted = map[string]bool{}
+							}
+							cur.accepted[k2] = true
+						}
 						prev, _ := r.Context().Value(ctxTagKey{}).([]string)
 						nr := r.WithContext(context.WithValue(r.Context(), ctxTagKey{}, append(append([]string{}, prev...), k2)))
 						return []reflect.Value{reflect.ValueOf(nr), reflect.ValueOf(true)}
@@ -127,6 +138,23 @@ func modeSec(c *Ctx) {
 		}
 	}
 	rec(nil)
+	// malformed credentials: one scheme carries a hostile form of its
+	// credential, the others are all absent or all valid. What the
+	// authenticator is handed for such a value is goag's business; the
+	// verdict follows the authenticators' recorded decisions.
+	malformed := []string{"mal:Bearer", "mal:Bearer ", "mal:bearer", "mal:Bearer  %s", "mal:bearer %s", "mal:Token %s", "mal:%s", "mal:Bearer\t%s", "mal:B", "mal:", "mal:Bearer %s extra"}
+	for i := range keys {
+		for _, m := range malformed {
+			for _, rest := range []string{"absent", "valid"} {
+				a := make([]string, len(keys))
+				for j := range a {
+					a[j] = rest
+				}
+				a[i] = m
+				assigns = append(assigns, a)
+			}
+		}
+	}
 	nilOptions := append([]string{""}, keys...)
 	for _, op := range c.Ops {
 		if op.Spec == nil {
@@ -141,15 +169,29 @@ func modeSec(c *Ctx) {
 				r := NewRequest(op.Method, path, "", nil, nil)
 				q := r.URL.Query()
 				cred := map[string]string{}
+				hasMalformed := false
 				// schemes sharing a carrier (same header) cannot carry different credentials: last writer wins, reference follows the wire
 				for i, k := range keys {
 					s := schemes[k]
 					tok := ""
-					switch as[i] {
-					case "valid":
+					switch {
+					case as[i] == "valid":
 						tok = "good-" + k
-					case "invalid":
+					case as[i] == "invalid":
 						tok = "bad"
+					case strings.HasPrefix(as[i], "mal:"):
+						hasMalformed = true
+						raw := strings.ReplaceAll(strings.TrimPrefix(as[i], "mal:"), "%s", "good-"+k)
+						switch {
+						case s.Type == "apiKey" && s.In == "query":
+							q.Set(s.Name, raw)
+						case s.Type == "apiKey" && s.In == "header":
+							r.Header[http.CanonicalHeaderKey(s.Name)] = []string{raw}
+						case s.Type == "apiKey":
+						default:
+							r.Header["Authorization"] = []string{raw}
+						}
+						continue
 					default:
 						continue
 					}
@@ -233,6 +275,30 @@ func modeSec(c *Ctx) {
 				c.Stat("requests", 1)
 				c.Distinct(fmt.Sprintf("%s|%v|%v|%s", op.Key, req, as, nilScheme))
 				if panicked {
+					continue
+				}
+				if hasMalformed {
+					c.Stat("malformed_credential_requests", 1)
+					byEvents := len(req) == 0
+					for _, alt := range req {
+						all := true
+						for _, k := range alt {
+							if !cur.accepted[k] {
+								all = false
+							}
+						}
+						if all {
+							byEvents = true
+						}
+					}
+					switch {
+					case cur.ran && !byEvents:
+						c.Viol("granted", "handler ran although no alternative of the operation's effective requirement was accepted by its authenticators (malformed credential)"+tag, in, "401, handler not invoked", fmt.Sprintf("handler ran, accepted=%v", cur.accepted))
+					case !cur.ran && byEvents:
+						c.Viol("denied", "handler did not run although the authenticators accepted an alternative of the operation's effective requirement (malformed credential)"+tag, in, "handler runs", fmt.Sprintf("status %d", w.Status))
+					case !cur.ran && w.Status != 401:
+						c.Viol("status-401", "refused request was not answered 401", in, 401, w.Status)
+					}
 					continue
 				}
 				switch {
